@@ -741,11 +741,11 @@ def const_int(n):
 
 # ------------------------------------------------------------------------------------------ save / restore of wrapper switches
 
-def restore_rules(P, R):
+def restore_rules(P, R, RULE="C08.restore"):
     """IPhreeqc methods that temporarily override a member (`bool save = this->X; this->X = v; ...; this->X = save;`) must
     restore it on every normal path: an early return between override and restore leaves the instance with the temporary
     value - a failed call poisons the user's settings."""
-    R.rule("C08.restore", "wrapper members that are saved, overridden and restored are restored on every normal path (no early return in between)", minimum=6)
+    R.rule(RULE, "wrapper members that are saved, overridden and restored are restored on every normal path (no early return in between)", minimum=6)
 
     def fpath(n):
         r, st = T.access_path(n)
@@ -794,11 +794,11 @@ def restore_rules(P, R):
                 if not any(r in pd[on] for r in rn if r is not None):
                     bad.append(o[1])
             if bad:
-                R.violation("C08.restore", inst, "`%s` is saved in `%s`, overridden at line %s and restored at line %s, but a normal path (an early return) leaves %s without "
+                R.violation(RULE, inst, "`%s` is saved in `%s`, overridden at line %s and restored at line %s, but a normal path (an early return) leaves %s without "
                             "the restore: after a failing call the instance keeps the temporary value" % (fp[-1].split("::")[-1], loc, bad, [r[1] for r in restores], f["q"]),
                             file=f["file"], line=bad[0], function=f["q"])
             else:
-                R.ok("C08.restore", inst, "restore at line %s post-dominates the override" % [r[1] for r in restores])
+                R.ok(RULE, inst, "restore at line %s post-dominates the override" % [r[1] for r in restores])
 
 
 # ------------------------------------------------------------------------------------------ std exceptions (information)
